@@ -189,12 +189,16 @@ func (c *Chain) GovTx(o GovOp) *types.Transaction {
 		return c.SignedTx(scm, side_chain_manager.APPROVE_REGISTER_SIDE_CHAIN, ser(p.Serialization), pick(v))
 	case "regrelayer":
 		a := cand(o.A)
-		var list []common.Address
-		for i := 0; i <= o.L%4; i++ {
-			list = append(list, world.Acct(30+i+o.A%3).Address)
-		}
-		p := &relayer_manager.RelayerListParam{AddressList: list, Address: a.Address}
+		p := &relayer_manager.RelayerListParam{AddressList: RelayerList(o), Address: a.Address}
 		return c.SignedTx(rm, relayer_manager.REGISTER_RELAYER, ser(p.Serialization), pick(a))
+	case "rmrelayer":
+		a := cand(o.A)
+		p := &relayer_manager.RelayerListParam{AddressList: RelayerList(o), Address: a.Address}
+		return c.SignedTx(rm, relayer_manager.REMOVE_RELAYER, ser(p.Serialization), pick(a))
+	case "approvermrelayer":
+		v := val(o.V)
+		p := &relayer_manager.ApproveRelayerParam{ID: o.ID % 4, Address: v.Address}
+		return c.SignedTx(rm, relayer_manager.APPROVE_REMOVE_RELAYER, ser(p.Serialization), pick(v))
 	case "approverelayer":
 		v := val(o.V)
 		p := &relayer_manager.ApproveRelayerParam{ID: o.ID % 4, Address: v.Address}
@@ -203,4 +207,22 @@ func (c *Chain) GovTx(o GovOp) *types.Transaction {
 		return c.SignedTx(ProbeAddress, "run", EncodeScript(o.Steps), nil)
 	}
 	panic("lworld: unknown gov op " + o.Op)
+}
+
+// RelayerAccounts / RelayerList: the relayer addresses a regrelayer / rmrelayer op names
+// (pool accounts 30+i+A%3 for i = 0..L%4).
+func RelayerAccounts(o GovOp) []*account.Account {
+	var out []*account.Account
+	for i := 0; i <= o.L%4; i++ {
+		out = append(out, world.Acct(30+i+o.A%3))
+	}
+	return out
+}
+
+func RelayerList(o GovOp) []common.Address {
+	var list []common.Address
+	for _, a := range RelayerAccounts(o) {
+		list = append(list, a.Address)
+	}
+	return list
 }
